@@ -6,7 +6,7 @@ Import ListNotations.
 Open Scope Z_scope.
 
 Ltac unf := unfold query_index_mid, query_index, take_mid, take_primary, load_index, load_primary,
-              get_primary, exec, set_primary.
+              get_primary, exec, exec_die, set_primary.
 Ltac split_step :=
   repeat match goal with
          | |- context [if ?b then _ else _] => destruct b eqn:?
@@ -89,6 +89,10 @@ Lemma dberr_returned_exec c s p w keys :
   dbFault s = true -> step c s (OExec p w keys) = (s, mkObs RDbErr 0 0).
 Proof. intros F. cbn [step]. unfold exec. rewrite F. reflexivity. Qed.
 
+Lemma dberr_returned_exec_die c s p w keys n0 :
+  dbFault s = true -> step c s (OExecDie p w keys n0) = (s, mkObs RDbErr 0 0).
+Proof. intros F. cbn [step]. unfold exec_die. rewrite F. reflexivity. Qed.
+
 (* ------------------------------------------------------------------ store errors *)
 Lemma cerr_take c s p t : key_down c s (KP p) = true -> step c s (OTake p t) = (s, mkObs RCErr 0 0).
 Proof. intro K. cbn [step]. unfold take_primary. rewrite K. reflexivity. Qed.
@@ -135,6 +139,7 @@ Proof.
   - split_step; cbn; discriminate.
   - destruct (key_down c s (KP p)) eqn:K; [intros _; eapply A; eauto|]. split_step; cbn; discriminate.
   - destruct (key_down c s (KP p)) eqn:K; [intros _; eapply A; eauto|]. cbn; discriminate.
+  - split_step; cbn; discriminate.
 Qed.
 
 (* ------------------------------------------------------------------ TTLs *)
@@ -299,6 +304,12 @@ Proof.
     destruct (lookup (clock s) (cache s) (KU u)) as [[[a b|q|] x]|]; try apply written_same.
     + apply take_mid_written; cbn; auto.
     + apply load_index_written; cbn; auto.
+  - unfold exec_die. destruct (dbFault s); [apply written_same|].
+    destruct (negb (existsb (Z.eqb n0) (nodes_of c keys))); [apply written_same|].
+    destruct w as [[u v]|].
+    + destruct (u_taken p u (db s)); [apply written_same|]. cbn [fst]. apply written_sub.
+      intros k e H. apply die_keys_sub in H. exact H.
+    + cbn [fst]. apply written_sub. intros k e H. apply die_keys_sub in H. exact H.
 Qed.
 
 (* the longest TTL (seconds) an operation may hand to the store *)
@@ -435,14 +446,16 @@ Lemma db_error_lemma c s :
         step c s (OTake p t) = (s, mkObs RDbErr 0 1)) /\
      (forall u t, key_down c s (KU u) = false -> lookup (clock s) (cache s) (KU u) = None ->
         step c s (OQri u t) = (s, mkObs RDbErr 1 0)) /\
-     (forall p w keys, step c s (OExec p w keys) = (s, mkObs RDbErr 0 0))).
+     (forall p w keys, step c s (OExec p w keys) = (s, mkObs RDbErr 0 0)) /\
+     (forall p w keys n0, step c s (OExecDie p w keys n0) = (s, mkObs RDbErr 0 0))).
 Proof.
   split; [intro o; apply dberr_keeps_state|].
   split; [intro o; apply dberr_keeps_data|].
-  intro F. split; [|split]; intros.
+  intro F. split; [|split; [|split]]; intros.
   - apply dberr_returned_take; auto.
   - apply dberr_returned_qri; auto.
   - apply dberr_returned_exec; auto.
+  - apply dberr_returned_exec_die; auto.
 Qed.
 
 Lemma cache_error_lemma c s :
@@ -588,6 +601,11 @@ Proof.
     destruct (lookup (clock s) (cache s) (KU u)) as [[[a b|q|] x]|]; auto.
     + apply take_mid_typed; auto.
     + apply (load_index_typed c (fail_node s n)); auto.
+  - unfold exec_die. destruct (dbFault s); auto.
+    destruct (negb (existsb (Z.eqb n0) (nodes_of c keys))); auto. destruct w as [[u v]|].
+    + destruct (u_taken p u (db s)); auto. cbn [fst]. eapply typed_sub; [exact W|].
+      intros k e H. apply die_keys_sub in H. exact H.
+    + cbn [fst]. eapply typed_sub; [exact W|]. intros k e H. apply die_keys_sub in H. exact H.
 Qed.
 
 Lemma final_typed c ops : forall s, well_typed (cache s) -> well_typed (cache (final c s ops)).
@@ -641,4 +659,66 @@ Proof.
     + exfalso. eapply NU; eauto.
     + apply TM.
     + apply L1.
+  - unfold exec_die. split_step; cbn; discriminate.
+Qed.
+
+(* ------------------------------------------------------------------ an invalidation is never skipped *)
+Lemma del_keys_hit c keys s k :
+  In k keys ->
+  find k (cache (del_keys c keys s)) = None \/ In k (pending_keys (del_keys c keys s)).
+Proof.
+  intro M. destruct (dfold_hit c keys (nodes_of c keys) s k M (nodes_of_In c keys k M)) as [H1 H2].
+  unfold del_keys. destruct (key_down c s k); auto.
+Qed.
+
+(* Exec / Del / an Exec whose context dies while its first DEL is on the wire: once the write is
+   acknowledged, every key named is gone from the store or its deletion is a timer of the cleaner *)
+Lemma never_skipped_lemma c s :
+  (forall p w keys k, oret (snd (step c s (OExec p w keys))) = ROk -> In k keys ->
+     let s' := fst (step c s (OExec p w keys)) in
+     find k (cache s') = None \/ In k (pending_keys s')) /\
+  (forall keys k, In k keys ->
+     let s' := fst (step c s (ODel keys)) in
+     find k (cache s') = None \/ In k (pending_keys s')) /\
+  (forall p w keys n0 k, oret (snd (step c s (OExecDie p w keys n0))) = ROk -> In k keys ->
+     let s' := fst (step c s (OExecDie p w keys n0)) in
+     find k (cache s') = None \/ In k (pending_keys s')).
+Proof.
+  split; [|split].
+  - intros p w keys k. cbn [step]. unfold exec. destruct (dbFault s); [cbn; discriminate|].
+    destruct w as [[u v]|]; [destruct (u_taken p u (db s)); [cbn; discriminate|]|];
+      cbn [fst snd]; intros _ M; apply del_keys_hit; exact M.
+  - intros keys k M. cbn [step fst]. apply del_keys_hit. exact M.
+  - intros p w keys n0 k. cbn [step]. unfold exec_die. destruct (dbFault s); [cbn; discriminate|].
+    destruct (negb (existsb (Z.eqb n0) (nodes_of c keys))); [cbn; discriminate|].
+    destruct w as [[u v]|]; [destruct (u_taken p u (db s)); [cbn; discriminate|]|];
+      cbn [fst snd]; intros _ M; apply die_keys_hit; exact M.
+Qed.
+
+Lemma filter_all_id {A} (f : A -> bool) l : (forall x, In x l -> f x = true) -> filter f l = l.
+Proof.
+  induction l as [|x l IH]; cbn; intro H; [reflexivity|].
+  rewrite (H x (or_introl eq_refl)). f_equal. apply IH. intros y Hy. apply H. right. exact Hy.
+Qed.
+
+(* what exactly the dying context leaves behind: the keys of the DEL that was on the wire are
+   gone if their node is up; no other entry of the store is touched; the timers are those of
+   [die_split] (plus the on-wire DEL's own when its node was down) *)
+Lemma die_keys_exact c keys n0 s :
+  let s' := die_keys c keys n0 s in
+  let first := fst (die_split c keys n0) in
+  (node_down s n0 = false ->
+     cache s' = remove_all first (cache s) /\ pending s' = pending s ++ snd (die_split c keys n0)) /\
+  (node_down s n0 = true -> cache s' = cache s) /\
+  (forall k, In k first -> In k keys /\ node_of c k = n0).
+Proof.
+  cbn zeta. split; [|split].
+  - intro D. unfold die_keys, owe, del_on_node. sproj.
+    assert (F : filter (fun k => node_of c k =? n0) (fst (die_split c keys n0)) = fst (die_split c keys n0)).
+    { apply filter_all_id. intros k H.
+      apply die_split_first in H. destruct H as [_ H]. apply Z.eqb_eq. exact H. }
+    rewrite F. destruct (fst (die_split c keys n0)) eqn:E; [cbn; auto|]. rewrite D. sproj. auto.
+  - intro D. unfold die_keys, owe, del_on_node. sproj.
+    destruct (filter _ (fst (die_split c keys n0))); [reflexivity|]. rewrite D. reflexivity.
+  - intros k H. apply die_split_first in H. exact H.
 Qed.
